@@ -61,9 +61,8 @@ def out_tr(inp, out, p):
 def build(kind, eqs, dk=None):
     d = 1
     u, coef, expo = L.make_u(kind, d, 1, deg=2, salt=5, output_transform=out_tr)
-    eqp = {"a": jnp.asarray(0.7)}
-    if "b" in eqs:
-        eqp["b"] = jnp.asarray(-0.4)
+    eqp = {"b": jnp.asarray(-0.4)} if "b" in eqs else {}
+    eqp["a"] = jnp.asarray(0.7)  # non-alphabetical insertion order
     params = Params(nn_params=u.init_params(), eq_params=eqp)
     nv = L.nvar_of(kind, d)
     pts = L.points(3, nv)
